@@ -27,6 +27,12 @@ val parse_modifiers : node list -> str list
 
 val set_of_list : str list -> str list
 
+val is_ascii_alpha : coq_N -> bool
+
+val is_ascii_digit : coq_N -> bool
+
+val is_simple_ident : str -> bool
+
 val transform_modifiers : str list -> bool -> node option
 
 val nonempty_mods : str list option -> bool
